@@ -181,6 +181,46 @@ def probe_variable_names(rep):
     rep.notes.append('variable naming probe: %d names of pair/alpha/beta variables for ids 1..%d x 1..%d, all distinct: %s' % (len(names), N, N, bad is None))
 
 
+def growth_misc(rep):
+    """Growth beyond the listed properties (pseudo-property X: recorded, never a verdict):
+    -h of both parsers, README entry points, solve(write=True) writes the problem that was solved."""
+    import os
+    from . import common, impl
+    impl.ensure_repo()
+    import matchingproblems.solver as ms
+    import matchingproblems.generator as mg
+    from matchingproblems.generator.instance_options_parser import Instance_options_parser
+    for name, fn in (('solver', lambda: ms.Solver(['-h'])), ('generator', lambda: Instance_options_parser().parse(['-h']))):
+        try:
+            with impl.quiet():
+                fn()
+            code = 'returned'
+        except SystemExit as e:
+            code = e.code
+        except BaseException as e:  # noqa
+            code = repr(e)
+        rep.clause('X.help_exits_zero_' + name, code == 0, key='-h ' + name, what='-h -> %r' % (code,), own=False)
+    rep.clause('X.readme_entry_points', ms.Solver.__name__ == 'Solver' and mg.Generator.__name__ == 'Generator', key='entry points', own=False)
+    text = '2 2 1\n1: 1 2\n2: (1 2)\n1: 0: 1: 1\n2: 0: 1: 1\n1: 0: 2: 2: 1 2\n'
+    path = impl.write_text(text)
+    cwd = os.getcwd()
+    d = common.subdir('write-%d' % os.getpid())
+    os.chdir(d)
+    try:
+        S = ms.Solver(['-f', path, '-na', '3', '-twopl', '-stab', '-maxsize', '1', '-lsb', '2'])
+        S.solve(write=True)
+        lp = open(os.path.join(d, 'model.lp')).read() if os.path.exists(os.path.join(d, 'model.lp')) else None
+        names = [v.name for v in S.solver.prob.variables()]
+        ok = lp is not None and all(n.replace('(', '_').replace(')', '_').replace(',', '_') in lp or n in lp for n in names if n != '__dummy')
+        rep.clause('X.write_lp_file_lists_all_variables', ok, key='write=True',
+                   what='model.lp %s; variables %s' % ('missing' if lp is None else 'written', names[:6]), own=False)
+    except BaseException as e:  # noqa
+        rep.clause('X.write_lp_file_lists_all_variables', False, key='write=True', what='%s: %s' % (type(e).__name__, e), own=False)
+    finally:
+        os.chdir(cwd)
+        os.unlink(path)
+
+
 def main(pid, tier, seed):
     post = None
     if pid in ('C01', 'C02', 'C03', 'C04', 'C05'):
@@ -190,4 +230,5 @@ def main(pid, tier, seed):
             m3real.run(rep, pool, pid, m3real.jobs_for(pid, tier, seed), 'real CBC on Evaluations/ and generator instances')
             if pid == 'C02':
                 probe_variable_names(rep)
+                growth_misc(rep)
     return lpcheck.run_lp_check(pid, tier, seed, runs_for(pid, tier, seed), rule=RULES[pid], nontrivial=NONTRIVIAL.get(pid), post=post)
